@@ -3,8 +3,8 @@
 checks of the property it breaks (and related ones), undo it, and record which checks catch it."""
 import os, sys, json, subprocess, glob, re
 VERIF = os.path.dirname(os.path.dirname(os.path.abspath(__file__)))
-RELATED = {"C01": ["C01"], "C02": ["C02"], "C03": ["C03", "C04"], "C04": ["C04"], "C05": ["C05", "C12"], "C06": ["C06"], "C07": ["C07"],
-           "C08": ["C08"], "C09": ["C09", "C04"], "C10": ["C10", "C04"], "C11": ["C11", "C05"], "C12": ["C12"], "C13": ["C13", "C12", "C05"],
+RELATED = {"C01": ["C01"], "C02": ["C02", "C09"], "C03": ["C03", "C04", "C10"], "C04": ["C04"], "C05": ["C05", "C12"], "C06": ["C06", "C01"], "C07": ["C07"],
+           "C08": ["C08"], "C09": ["C09", "C04"], "C10": ["C10", "C04"], "C11": ["C11", "C05"], "C12": ["C12", "C05", "C06"], "C13": ["C13", "C12", "C05"],
            "C14": ["C14", "C16"], "C15": ["C15"], "C16": ["C16"], "C17": ["C17", "C01"], "C18": ["C18"], "C19": ["C19"], "C20": ["C20"]}
 flt = sys.argv[1] if len(sys.argv) > 1 else ""
 sys.path.insert(0, os.path.join(VERIF, "bin"))
